@@ -13,11 +13,12 @@ RULE = ("Targets of order 2-5 with non-uniform modes 2-20 (<= 50000 entries, mod
         "random ranks; dmrg_cross(f,N) and function_interpolate(f,x) with one TT argument (univariate f) or a meshgrid "
         "list (multivariate). Oracle: (1) a monitor wrapped around the user function checks every call: integer M x d "
         "matrix with column k in [0,N[k]) for dmrg_cross; float values that are actual entries of the argument tensors "
-        "for function_interpolate; (2) result shape N and ||dense(y)-ref|| <= 5 eps ||ref||. Non-trivial: some mode is "
+        "for function_interpolate; the function's values are multiplied by 10^k, k in {0,+-3,+-6,-9} (the clause is relative); "
+        "(2) result shape N and ||dense(y)-ref|| <= 5 eps ||ref||. Non-trivial: some mode is "
         "smaller than initial rank + kick (wide enrichment QR) or the modes are non-uniform.")
 BUDGET = {"quick": 1600, "thorough": 32000}
 FLOORS = {"quick": {"routine:dmrg_cross": 200, "routine:fi_uni": 100, "routine:fi_multi": 100, "small_mode": 150,
-                    "target:ttrank": 150, "start_tensor": 80}}
+                    "target:ttrank": 150, "start_tensor": 80, "scale:1e-6": 40}}
 SHRINK = {"quick": False, "thorough": True}
 ASSUMPTIONS = ["torch.manual_seed(lib_seed) pins the internal randomness", "kick and nswp are left at their defaults"]
 C_EPS = 5.0
@@ -45,6 +46,8 @@ def strategy_case(draw):
         case["start_R"] = draw(gen.ranks(d, 4))
     if routine == "fi_multi" and draw(st.booleans()):
         case["fi_args"] = "tt"
+    # the accuracy clause is relative, so the data scale must not matter: the user function's values are multiplied by 10^k
+    case["scale10"] = draw(st.sampled_from([0, 0, 0, -3, -6, -9, 3, 6]))
     return case
 
 
@@ -93,10 +96,12 @@ def _fi_multi_tt(T, ck, case, mon, start):
                         mon["bad"] = "a row handed to f is not (x1[I], x2[I]) for any multi-index I"
                         break
         mon["evals"] += V.shape[0]
-        return V[:, 0] + 2.0 * V[:, 1]
+        return (V[:, 0] + 2.0 * V[:, 1]) * sc
+    sc = 10.0 ** case.get("scale10", 0)
+    ck.label("scale:1e%d" % case.get("scale10", 0))
     torch.manual_seed(case["lib_seed"])
     y = lib(lambda: T.interpolate.function_interpolate(f, xs, eps=eps, start_tens=start))
-    ref = (dd[0] + 2.0 * dd[1]).reshape(N)
+    ref = (dd[0] + 2.0 * dd[1]).reshape(N) * sc
     ck.require(mon["bad"] is None, "callback_arguments", str(mon["bad"]))
     ck.require(mon["calls"] > 0, "callback_never_called", "the user function was never called")
     if ck.require(isinstance(y, T.TT) and not y.is_ttm and [int(n) for n in y.N] == list(N), "shape", "result kind/shape"):
@@ -125,6 +130,9 @@ def execute(case):
         ref = dense(Tc)
     else:
         ref = _g(case, ssum)
+    sc = 10.0 ** case.get("scale10", 0)
+    ref = ref * sc
+    ck.label("scale:1e%d" % case.get("scale10", 0))
     start = None
     if "start_R" in case:
         ck.label("start_tensor")
@@ -173,7 +181,7 @@ def execute(case):
                     if float(near.max()) > 1e-8 * max(1.0, float(vals.abs().max())):
                         mon["bad"] = "value %g passed to f is not an entry of the argument tensor" % float(flat[int(near.argmax())])
             mon["evals"] += v.numel()
-            return _g(case, v)
+            return _g(case, v) * sc
         torch.manual_seed(case["lib_seed"])
         y = lib(lambda: T.interpolate.function_interpolate(f, x, eps=eps, start_tens=start))
     else:
@@ -196,7 +204,7 @@ def execute(case):
                             break
             mon["evals"] += V.shape[0]
             off = sum(100.0 * k for k in range(d))
-            return _g(case, V.sum(1) - off)
+            return _g(case, V.sum(1) - off) * sc
         torch.manual_seed(case["lib_seed"])
         y = lib(lambda: T.interpolate.function_interpolate(f, xs, eps=eps, start_tens=start))
 
